@@ -28,20 +28,21 @@ InBlocks(c) == {blocks[c].ins[i].x : i \in {j \in DOMAIN blocks[c].ins : ~blocks
 OConn(b) == {c \in C : b \in InBlocks(c)}
 OConnAll(q) == UNION {OConn(q[i]) : i \in DOMAIN q}
 F(c, o) == CB!F(blocks[c], o, o[c])
-Consistent(o) == \A c \in C : o[c] = F(c, o)
+(* an output equals its function of the inputs (an equal result leaves the old object) *)
+Consistent(o) == \A c \in C : CB!Eq(o[c], F(c, o))
 
 (* synchronous delivery of value v to the sequential blocks ss (in order): an Input      *)
 (* stores the value and, if it changed, enqueues itself                                  *)
 RECURSIVE Feed(_, _, _, _, _)
 Feed(ss, i, v, o, q) ==
     IF i > Len(ss) THEN [o |-> o, q |-> q]
-    ELSE IF o[ss[i]] = v THEN Feed(ss, i + 1, v, o, q)
+    ELSE IF CB!Eq(o[ss[i]], v) THEN Feed(ss, i + 1, v, o, q)
     ELSE Feed(ss, i + 1, v, [o EXCEPT ![ss[i]] = v], Append(q, ss[i]))
 
 (* an external event changes a sequential block while the simulator task is suspended *)
 Put(s, v) == /\ pc = "idle" /\ s \in S
-             /\ out' = [out EXCEPT ![s] = v]
-             /\ queue' = IF out[s] = v THEN queue ELSE Append(queue, s)
+             /\ out' = IF CB!Eq(out[s], v) THEN out ELSE [out EXCEPT ![s] = v]
+             /\ queue' = IF CB!Eq(out[s], v) THEN queue ELSE Append(queue, s)
              /\ UNCHANGED <<blocks, evalSet, cnt, pc>>
 
 Wake == /\ pc = "idle" /\ queue # <<>>
@@ -57,8 +58,8 @@ Selectable(c, es) == c \in es /\ (SelectMin /\ Cardinality(es) > 1 => \A d \in e
 
 (* evaluate one pending block; its output events are delivered before the next step *)
 EvalOf(c) == LET v == F(c, out)
-                 changed == v # out[c]
-                 o1 == [out EXCEPT ![c] = v]
+                 changed == ~CB!Eq(v, out[c])           \* an equal result: unchanged, the old object stays
+                 o1 == IF changed THEN [out EXCEPT ![c] = v] ELSE out
                  fed == IF changed THEN Feed(blocks[c].fb, 1, v, o1, queue) ELSE [o |-> o1, q |-> queue]
              IN  /\ out' = fed.o /\ queue' = fed.q
                  /\ evalSet' = (evalSet \ {c}) \cup (IF changed THEN OConn(c) ELSE {})
@@ -79,5 +80,5 @@ BoundedWork    == cnt <= Limit                                                  
 (* the inductive reason: a block whose inputs changed since its last evaluation is       *)
 (* pending, or an upstream sequential block is still in the queue                        *)
 EvalSetSound   == pc \in {"run", "idle"} =>
-                     \A c \in C : out[c] # F(c, out) => (c \in evalSet \/ c \in OConnAll(queue))
+                     \A c \in C : ~CB!Eq(out[c], F(c, out)) => (c \in evalSet \/ c \in OConnAll(queue))
 =============================================================================
